@@ -21,6 +21,7 @@ InvPast == ReportedFieldsArePast(s)
 InvHonest == HonestPartialAt(s)
 InvDeferredClosed == DeferredClosedAt(s)
 InvTotal == \A b \in Byte : Step(s, b).st \in {"P", "C", "E"} /\ Step(s, b).pos <= s.pos + 1
+InvCompleteDetermined == CompleteDetermined(s)
 InvConsumed == s.pos = Len(buf) \/ (IsDone(s) /\ s.pos <= Len(buf))
 
 PropAbsorbing == [][AbsorbingStep(s, s')]_vars
